@@ -172,3 +172,13 @@ pub fn c08_payload_alone(inp: &mut Inp) {
     assert!(out.is_empty());
     reached();
 }
+
+//@ {"tier":"quick","unwind":2,"desc":"ASYNC payload (3 bytes, one byte per poll, Pending before every delivery) consumed through the BLOCKING interface into_read (async->sync bridge; block_on modelled by a poll loop): header+attributes, exact payload, EOF","sym":"request id, value, 3 payload bytes"}
+pub fn c08_blocking_async_payload(inp: &mut Inp) {
+    let (mut r, head) = message(inp);
+    let pay = payload_bytes(inp, 3);
+    *r.payload_mut() = IppPayload::new_async(ASrc::new(pay, 4));
+    let out = drain_blocking(r.into_read(), 2, head.len() + 3);
+    expect_stream(&out, &head, pay);
+    reached();
+}
